@@ -24,6 +24,14 @@ def check_tree(C, drv, root, tag, exhaustive_idx=True, recipe=None):
             real_find.append('error')
     lines = [f't.pre {enc}', f't.post {enc}', f't.props {enc}'] + [f't.find {enc} {p}' for p in ps]
     outs = drv.ask_many(lines)
+    # the traversal programs as the translator read them from the current source, run by the Lean interpreter
+    wouts = drv.ask_many([f'w.pre {enc}', f'w.post {enc}'])
+    if not dup and -1 not in real_pre and -1 not in real_post:
+        if common.dec_ints(wouts[0]) != real_pre:
+            C.issue('translated-pre-order-mismatch', 'correspondence', dict(how='tree', tree=enc), model=wouts[0][:120], real=real_pre)
+        if common.dec_ints(wouts[1]) != real_post:
+            C.issue('translated-post-order-mismatch', 'correspondence', dict(how='tree', tree=enc), model=wouts[1][:120], real=real_post)
+        C.extra['translated_walks_run'] = C.extra.get('translated_walks_run', 0) + 2
     model_pre = common.dec_ints(outs[0])
     model_post = common.dec_ints(outs[1])
     rp = dict(how='tree', tree=enc)
